@@ -164,7 +164,7 @@ class C04(Spec):
                     h.append("ureset %d" % uid)
                 elif r < 0.4:
                     for _ in range(rng.choice([1, 3, 10, 30])):
-                        ty, lit = gen.rand_input(rng, 3000, ["u64", "i32", "str"])
+                        ty, lit = gen.rand_input(rng, 3000, ["u64", "i32", "str"] if rng.random() < 0.5 else None)     # the union has its own 12 update overloads
                         h.append("upd %d %s %s" % (uid, ty, lit))
                 h.append("obs %d" % s)
                 if rng.random() < 0.3:
@@ -222,6 +222,14 @@ class C04(Spec):
         n = 260 if tier == "quick" else 1800
         hs = [self.gen_history(rng, tier) for _ in range(n)]
         hs += [self.gen_far_apart(rng, tier) for _ in range(6 if tier == "quick" else 40)]
+        # raw items through EVERY update overload of the union (boundary literals of each type), alone and on top of a sketch fed the
+        # same items through its own overloads: the union must canonicalise each type exactly as the sketch does
+        m = gen.edge_matrix(rng, 30 if tier == "quick" else 300)
+        for lgm, tt in ((8, 8), (10, 4), (6, 6)):
+            h = ["new 0 %d %d 0" % (lgm, tt)] + ["upd 0 %s %s" % x for x in m] + ["obs 0",
+                 "unew 50 %d" % lgm] + ["upd 50 %s %s" % x for x in m] + ["ures 50 100 %d" % tt,
+                 "unew 51 %d" % lgm, "umerge 51 0 0"] + ["upd 51 %s %s" % x for x in m] + ["ures 51 101 8", "uest 51 est"]
+            hs.append(h)
         hs.append(["unew 0 3", "unew 1 22", "unew 2 4", "ures 2 3 4", "uest 2 est", "ureset 2", "ures 2 4 8"])
         return hs
 
